@@ -39,25 +39,23 @@ PROPS = {
     },
     'C07': {
         'native': ['c07_'],
-        'units': ['utxo'],
+        'units': ['utxo', 'dumps'],
         'kani_quick': ['tx_outpoint_to_bytes_layout'],
         'kani_thorough': [],
         'trusted': [
             'std HashMap<Vec<u8>,V> insert/remove == Map insert/remove on the key bytes (prelude/hashmap.inc, assumed contract of std)',
-            'UnspentCsvDump::on_complete (map iteration, format!, fs::rename): outside both verifiers -- the dump loop is UNCHECKED; '
-            'what is proved is that the map it iterates is exactly apply_blocks(range)',
+            'UnspentCsvDump::on_complete is under contract in unit dumps: header, then exactly one row per map entry carrying txid=key[0..32], index=LE32(key[32..36]), height, value, address (idiom I17: HashMap iteration yields every entry once in an unspecified order); the TEXT of a row is an uninterpreted function row5(format string, field values) (format!/Display trusted, replayed by lane N); fs::rename / the output file name are not under contract',
             'u32::to_le_bytes == vstd spec_u32_to_le_bytes (idiom I11); Vec::extend appends (idiom I7)',
             'input precondition tx_wf: < 2^32 outputs per transaction; counters do not overflow u64',
         ],
     },
     'C08': {
         'native': ['c08_', 'c07_'],
-        'units': ['utxo'],
+        'units': ['utxo', 'dumps'],
         'kani_quick': [],
         'kani_thorough': [],
         'trusted': [
-            'PARTIAL: only the UTXO-set maintenance of Balances::on_block is decided (same apply_txs as C07); the per-address '
-            'aggregation in Balances::on_complete (HashMap<&str,u64> entry API, iteration, +=) is outside both verifiers and UNCHECKED',
+            'Balances::on_complete is under contract in unit dumps: the aggregation map holds exactly the addresses owning an entry, each bound to the sum of its entries (idioms I15 entry().or_insert(), I17 iteration), one row per address after the header; the TEXT of a row is an uninterpreted function row2(format string, address, balance); precondition pre:address_totals_fit_u64 (no per-address total exceeds u64); fs::rename(..).expect() returns only on success (idiom I24)',
             'std HashMap contract as in C07',
         ],
     },
@@ -156,11 +154,12 @@ PROPS = {
     },
     'C01': {
         'native': ['c01_', 'c12_'],
-        'units': ['reader', 'proto'],
+        'units': ['reader', 'proto', 'csvdump'],
         'kani_quick': ['varuint_read_from_all_prefixes', 'varuint_read_from_short_input', 'reader_header_roundtrip', 'reader_outpoint_roundtrip', 'utils_arr_to_hex_one_byte'],
         'kani_thorough': [],
         'trusted': [
-            'PARTIAL: decode fidelity, witness stripping, hash pre-images, count == length are decided; the CSV TEXT (as_csv: format!/Display of integers and hashes, arr_to_hex fold) and CsvDump::on_block row emission are outside both verifiers -- UNCHECKED',
+            'PARTIAL: decode fidelity, witness stripping, hash pre-images, count == length, row emission (one row per item, in order, to the right file; totals == rows written) are decided by Verus; the CSV TEXT of one row (as_csv: format!/Display of integers and hashes, arr_to_hex fold) is an uninterpreted function of the item in unit csvdump -- outside both verifiers, replayed by lane N only',
+            'BufWriter<File>::write_all appends its whole buffer on Ok (ghost log shim in unit csvdump); flushing/renaming in on_complete is not under contract (lane N reads the renamed files)',
             'std::io::Read::read_exact and byteorder read_u8/u16/u32/u64::<LittleEndian> consume exactly their bytes (shim trait Read in unit reader; LE decoders Kani-validated)',
             'read_txs / read_merkle_branch (`(0..n).map(..).collect()`): assumed in Verus, bounded Kani harness on the real code',
             'rayon into_par_iter().map().collect() preserves order (Block::new, EvaluatedTx::new)',
